@@ -34,18 +34,20 @@ Lemma clean_length s : length (clean s) = length s. Proof. apply map_length. Qed
 
 Definition cookie_ns (c : cookie) : Prop := ns (ck_key c) /\ ns (ck_value c) /\ ns (ck_domain c) /\ ns (ck_path c).
 
-Lemma cstep_ns np c o : cookie_ns c -> cookie_ns (cstep np c o).
+(* CopyTo(src) takes over src's fields: src must itself be the product of setters *)
+Definition cop_ok (o : cop) : Prop := match o with OCopyFrom src => cookie_ns src | _ => True end.
+Lemma cstep_ns np c o : cookie_ns c -> cop_ok o -> cookie_ns (cstep np c o).
 Proof.
-  intros (H1 & H2 & H3 & H4).
-  destruct o; cbn [cstep]; unfold SetKey, SetValue, SetDomain, SetPath, SetMaxAge, SetExpire, SetHTTPOnly, SetSecure, SetSameSite, SetPartitioned, Reset,
+  intros (H1 & H2 & H3 & H4) Hok.
+  destruct o; cbn [cstep cop_ok] in *; try exact Hok; unfold SetKey, SetValue, SetDomain, SetPath, SetMaxAge, SetExpire, SetHTTPOnly, SetSecure, SetSameSite, SetPartitioned, Reset,
     initHeaderValueBytes; rewrite ?clean_model; try (repeat split; cbn; try assumption; try apply clean_ns; reflexivity).
   - destruct m; repeat split; cbn; assumption.
   - destruct b; unfold SetPath, SetSecure; rewrite ?clean_model; repeat split; cbn; try assumption. apply clean_ns.
 Qed.
-Theorem crun_ns np ops : cookie_ns (crun np ops).
+Theorem crun_ns np ops : Forall cop_ok ops -> cookie_ns (crun np ops).
 Proof.
-  unfold crun. assert (G : forall ops c, cookie_ns c -> cookie_ns (fold_left (cstep np) ops c)).
-  { clear. induction ops as [|o ops IH]; intros c H; [exact H|]. cbn [fold_left]. apply IH. now apply cstep_ns. }
+  unfold crun. assert (G : forall ops c, cookie_ns c -> Forall cop_ok ops -> cookie_ns (fold_left (cstep np) ops c)).
+  { clear. induction ops as [|o ops IH]; intros c H Hok; [exact H|]. inversion Hok; subst. cbn [fold_left]. apply IH; [|assumption]. now apply cstep_ns. }
   apply G. repeat split; reflexivity.
 Qed.
 
@@ -814,4 +816,206 @@ Proof.
     rewrite E. unfold keep. cbn [fst snd]. rewrite V3. destruct k; [congruence|]. reflexivity.
   - unfold jar_of. generalize (@nil (bytes * bytes)). induction H as [|[k v] r [A B] Hr IH]; intros j; [reflexivity|].
     cbn [fold_left fst snd] in *. rewrite (clean_id k) by (now destruct (name_facts _ A)). rewrite (clean_id v) by (now destruct (octet_facts _ B)). apply IH.
+Qed.
+
+(* ================================================================== jars: operations beyond SetCookie *)
+(* ---- the request jar for ANY separator-free content ---- *)
+Theorem request_jar_exact j : jar_ns j ->
+  parseRequestCookies [] (appendRequestCookieBytes [] j) =
+  Some (flat_map (fun kv => if keep (seen_pair kv) then [seen_pair kv] else []) j).
+Proof.
+  intros J. rewrite appendRequestCookieBytes_joined. cbn [app]. unfold parseRequestCookies.
+  rewrite prc_loop_joined; [|  |lia].
+  - cbn [app]. f_equal. rewrite flat_map_concat_map, map_map, <- flat_map_concat_map. reflexivity.
+  - apply Forall_forall. intros s Hs. apply in_map_iff in Hs as ([k v] & <- & Hkv).
+    unfold jar_ns in J. rewrite Forall_forall in J. destruct (J _ Hkv) as [A B]. cbn [fst snd] in A, B.
+    rewrite pair_text_model. cbn [fst snd]. apply nosemi_app; [|exact (ns_nosemi _ B)].
+    destruct k; [intros ? []|]. apply nosemi_app; [exact (ns_nosemi _ A)|]. intros x [<-|[]]. discriminate.
+Qed.
+
+(* scanner output of a CR/LF-free text is separator-free *)
+Definition ncl (s : bytes) : Prop := forall c, In c s -> c <> 13 /\ c <> 10.
+Lemma split_at_parts d b : (forall c, In c (fst (split_at d b)) -> In c b /\ c <> d) /\
+  (forall t, snd (split_at d b) = Some t -> (forall c, In c t -> In c b) /\ (length t < length b)%nat).
+Proof.
+  induction b as [|a b [I1 I2]]; cbn [split_at]; [split; [intros ? []|discriminate]|].
+  destruct (N.eqb_spec a d) as [->|Hn]; cbn [fst snd].
+  - split; [intros ? []|]. intros t E. inversion E; subst. split; [intros c Hc; now right|cbn; lia].
+  - destruct (split_at d b) as [x y]. cbn [fst snd] in *. split.
+    + intros c [->|Hc]; [split; [now left|exact Hn]|]. destruct (I1 c Hc). split; [now right|assumption].
+    + intros t E. destruct (I2 t E) as [A B]. split; [intros c Hc; right; now apply A|cbn; lia].
+Qed.
+Lemma scan_pair_ns b k v rest : ncl b -> scan_pair b = Some (k, v, rest) -> ns k /\ ns v /\ ncl rest /\ (length rest < length b)%nat.
+Proof.
+  intros Hb. unfold scan_pair. destruct b as [|c0 b0]; [discriminate|]. set (b := c0 :: b0) in *.
+  destruct (split_at_parts 59 b) as [P1 P2]. destruct (split_at 59 b) as [seg after]. cbn [fst snd] in *.
+  assert (Hseg : forall c, In c seg -> is_sep c = false).
+  { intros c Hc. destruct (P1 c Hc) as [A B]. destruct (Hb c A). unfold is_sep. lia. }
+  assert (Hrest : forall r, r = match after with Some (c :: r) => if c =? 32 then r else c :: r | Some [] => [] | None => [] end ->
+            ncl r /\ (length r < length b)%nat).
+  { intros r ->. destruct after as [t|]; [|split; [intros ? []|cbn; lia]]. destruct (P2 t eq_refl) as [A B].
+    destruct t as [|d t']; [split; [intros ? []|cbn; lia]|]. destruct (d =? 32).
+    - split; [intros c Hc; apply Hb, A; now right|cbn in *; lia].
+    - split; [intros c Hc; now apply Hb, A|exact B]. }
+  destruct (Hrest _ eq_refl) as [R1 R2].
+  destruct (split_at_parts 61 seg) as [Q1 Q2]. destruct (split_at 61 seg) as [x y]. cbn [fst snd] in *.
+  assert (Kx : forall q, ns (trimCookieArg x q)).
+  { intros q. apply ns_In. intros c Hc. apply Hseg. apply (Q1 c). exact (sub_trim x q c Hc). }
+  destruct y as [w|]; intros E; inversion E; subst; clear E.
+  - split; [exact (Kx false)|]. split; [|split; assumption].
+    apply ns_In. intros c Hc. apply Hseg. destruct (Q2 w eq_refl) as [A _]. apply A. exact (sub_trim w true c Hc).
+  - split; [reflexivity|]. split; [exact (Kx true)|split; assumption].
+Qed.
+Lemma prc_loop_ns fuel : forall b acc r, (length b <= fuel)%nat -> ncl b -> jar_ns acc -> prc_loop fuel b acc = r ->
+  exists c, r = Some c /\ jar_ns c.
+Proof.
+  induction fuel as [|f IH]; intros b acc r Hl Hb Ha E; cbn [prc_loop] in E.
+  - destruct b; [|cbn in Hl; lia]. subst. eauto.
+  - unfold next in E. destruct (scan_pair b) as [[[k v] rest]|] eqn:Es; [|subst; eauto].
+    destruct (scan_pair_ns _ _ _ _ Hb Es) as (Sk & Sv & Sr & Hlt).
+    eapply IH; [ | exact Sr | | exact E]; [lia|].
+    destruct ((match k, v with [], [] => false | _, _ => true end) && validCookieValue v); [|assumption].
+    apply Forall_app. split; [assumption|]. constructor; [split; assumption|constructor].
+Qed.
+Lemma removeNewLines_ncl s : ncl (ByteClassModel.removeNewLines s).
+Proof.
+  intros c Hc. unfold ByteClassModel.removeNewLines in Hc. apply in_map_iff in Hc as (x & <- & _).
+  destruct (N.eqb_spec x 13); [cbn; split; discriminate|]. destruct (N.eqb_spec x 10); [cbn; split; discriminate|]. cbn. split; assumption.
+Qed.
+
+Lemma delAllKV_ns j k : jar_ns j -> jar_ns (delAllKV j k).
+Proof. induction 1 as [|[k' v'] r H Hr IH]; cbn [delAllKV]; [constructor|]. destruct (beq k k'); [assumption|now constructor]. Qed.
+Lemma delAllKV_keys j k : NoDup (map fst j) -> NoDup (map fst (delAllKV j k)) /\ (forall x, In x (map fst (delAllKV j k)) -> In x (map fst j)) /\
+  (length (delAllKV j k) <= length j)%nat.
+Proof.
+  induction j as [|[k' v'] r IH]; intros Hn; cbn [delAllKV]; [split; [constructor|split; [auto|lia]]|].
+  inversion Hn; subst. destruct (IH H2) as (I1 & I2 & I3). destruct (beq k k').
+  - split; [exact I1|]. split; [intros x Hx; right; now apply I2|cbn; lia].
+  - cbn [map fst length]. split; [constructor; [intros Hin; apply H1; now apply I2|exact I1]|]. split; [|lia].
+    intros x [<-|Hx]; [now left|right; now apply I2].
+Qed.
+
+Lemma jstep_ns j o : jar_ns j -> jar_ns (jstep j o).
+Proof.
+  intros H. destruct o; cbn [jstep].
+  - unfold jarSetCookie, initHeaderValueBytes. rewrite !clean_model, setArg_assoc. apply assoc_set_ns; [exact H| |]; apply clean_ns.
+  - now apply delAllKV_ns.
+  - constructor.
+  - unfold parseRequestCookies. destruct (prc_loop _ _ j) as [c|] eqn:E; [|exact H].
+    destruct (prc_loop_ns _ _ _ _ (Nat.le_refl _) (removeNewLines_ncl _) H E) as (c' & E' & Hc'). now inversion E'; subst.
+Qed.
+Theorem jrun_ns ops : jar_ns (jrun ops).
+Proof.
+  unfold jrun. assert (G : forall ops j, jar_ns j -> jar_ns (fold_left jstep ops j)).
+  { clear. induction ops as [|o ops IH]; intros j H; [exact H|]. cbn [fold_left]. now apply IH, jstep_ns. }
+  apply G. constructor.
+Qed.
+
+Definition no_raw (o : jop) : Prop := match o with JRaw _ => False | _ => True end.
+Definition is_jset (o : jop) : bool := match o with JSet _ _ => true | _ => false end.
+Theorem jrun_keys ops : Forall no_raw ops ->
+  NoDup (map fst (jrun ops)) /\ (length (jrun ops) <= length (filter is_jset ops))%nat.
+Proof.
+  unfold jrun. assert (G : forall ops j, Forall no_raw ops -> NoDup (map fst j) ->
+     NoDup (map fst (fold_left jstep ops j)) /\ (length (fold_left jstep ops j) <= length j + length (filter is_jset ops))%nat).
+  { clear. induction ops as [|o ops IH]; intros j Ho Hj; cbn [fold_left filter]; [split; [exact Hj|lia]|].
+    inversion Ho; subst. destruct o; cbn [jstep is_jset] in *; try contradiction.
+    - unfold jarSetCookie. rewrite setArg_assoc. destruct (assoc_set_keys j (removeSemicolons (initHeaderValueBytes k)) (removeSemicolons (initHeaderValueBytes v)) Hj) as (A & _ & C).
+      destruct (IH _ H2 A) as [I1 I2]. split; [exact I1|]. cbn [length]. lia.
+    - destruct (delAllKV_keys j k Hj) as (A & _ & C). destruct (IH _ H2 A) as [I1 I2]. split; [exact I1|lia].
+    - destruct (IH [] H2 (NoDup_nil _)) as [I1 I2]. split; [exact I1|cbn in I2; lia]. }
+  intros Ho. destruct (G ops [] Ho (NoDup_nil _)) as [A B]. split; [exact A|cbn in B; lia].
+Qed.
+
+(* ---- the response jar ---- *)
+Lemma ncl_app a b : ncl a -> ncl b -> ncl (a ++ b).
+Proof. intros Ha Hb c Hc. apply in_app_or in Hc as [Hc|Hc]; auto. Qed.
+Lemma ns_ncl s : ns s -> ncl s.
+Proof. rewrite ns_In. intros H c Hc. specialize (H c Hc). unfold is_sep in H. lia. Qed.
+Lemma dchar_ncl s : forallb dchar s = true -> ncl s.
+Proof. intros H c Hc. rewrite forallb_forall in H. specialize (H c Hc). unfold dchar in H. lia. Qed.
+Lemma ncl_removeNewLines s : ncl s -> ByteClassModel.removeNewLines s = s.
+Proof.
+  intros H. unfold ByteClassModel.removeNewLines. rewrite <- (map_id s) at 2. apply map_ext_in. intros c Hc. destruct (H c Hc).
+  destruct (N.eqb_spec c 13); [contradiction|]. destruct (N.eqb_spec c 10); [contradiction|]. reflexivity.
+Qed.
+Ltac const_ncl := intros ? Hin; cbn in Hin; repeat (destruct Hin as [<-|Hin]; [split; discriminate|]); destruct Hin.
+Lemma sj_ncl segs : Forall ncl segs -> ncl (sj segs).
+Proof.
+  induction 1 as [|s r Hs Hr IH]; [intros ? []|]. unfold sj in *. cbn [map concat]. apply ncl_app; [|exact IH]. apply ncl_app; [const_ncl|exact Hs].
+Qed.
+Lemma Cookie_ncl c : cookie_ns c -> ncl (Cookie_ c).
+Proof.
+  intros (H1 & H2 & H3 & H4). rewrite Cookie_shape. apply ncl_app.
+  - unfold first_seg. apply ncl_app; [|now apply ns_ncl]. destruct (ck_key c) eqn:E; [intros ? []|]. apply ncl_app; [now apply ns_ncl|const_ncl].
+  - apply sj_ncl. unfold attr_segs. repeat (apply Forall_app; split).
+    + unfold age_segs. destruct (negb _).
+      * constructor; [|constructor]. apply ncl_app; [const_ncl|]. apply ncl_app; [const_ncl|].
+        assert (D : forall n, ncl (dec_digits n)).
+        { intros n. destruct (Z.le_gt_cases 0 n) as [Hn|Hn]; [apply dchar_ncl; now destruct (digits_facts n Hn)|].
+          unfold dec_digits. rewrite Z.log2_nonpos by lia. cbn [Z.to_nat dec_fuel]. assert (E : (n <? 10)%Z = true) by lia. rewrite E.
+          intros ch [<-|[]]. pose proof (Z.mod_pos_bound n 10 ltac:(lia)). lia. }
+        destruct (ck_maxAge c <? 0)%Z; apply D.
+      * destruct (negb _); [|constructor]. constructor; [|constructor]. apply ncl_app; [const_ncl|]. apply ncl_app; [const_ncl|].
+        apply dchar_ncl. now destruct (date_text (ck_expire c)).
+    + unfold part_seg. destruct (ck_domain c) eqn:E; [constructor|]. constructor; [|constructor]. apply ncl_app; [const_ncl|]. apply ncl_app; [const_ncl|now apply ns_ncl].
+    + unfold part_seg. destruct (ck_path c) eqn:E; [constructor|]. constructor; [|constructor]. apply ncl_app; [const_ncl|]. apply ncl_app; [const_ncl|now apply ns_ncl].
+    + destruct (ck_httpOnly c); [|constructor]. constructor; [const_ncl|constructor].
+    + destruct (ck_secure c); [|constructor]. constructor; [const_ncl|constructor].
+    + destruct (ck_sameSite c); cbn [ss_segs]; [constructor| | | |]; (constructor; [|constructor]); try const_ncl; (apply ncl_app; [const_ncl|apply ncl_app; const_ncl]).
+    + destruct (ck_partitioned c); [|constructor]. constructor; [const_ncl|constructor].
+Qed.
+
+(* an entry of the response jar is (key, serialised cookie) of a cookie that was given to SetCookie (or is the
+   deletion cookie of DelClientCookie), stored verbatim; keys are distinct *)
+Definition rjop_ok (o : rjop) : Prop := match o with RJSet c => cookie_ns c | _ => True end.
+Definition entry_of (c : cookie) : bytes * bytes := (ck_key c, Cookie_ c).
+Definition rj_cookies (ops : list rjop) : list cookie :=
+  flat_map (fun o => match o with RJSet c => [c] | RJDelClient k => [delClientCookie k] | _ => [] end) ops.
+
+Lemma delClientCookie_ns k : cookie_ns (delClientCookie k).
+Proof. unfold delClientCookie, SetKey, initHeaderValueBytes. rewrite clean_model. repeat split; cbn; try reflexivity. apply clean_ns. Qed.
+Lemma respSetCookie_entry j c : cookie_ns c -> respSetCookie j c = setArg j (ck_key c) (Cookie_ c).
+Proof.
+  intros H. unfold respSetCookie, initHeaderValueBytes. rewrite (ncl_removeNewLines (Cookie_ c)) by now apply Cookie_ncl.
+  rewrite ncl_removeNewLines; [reflexivity|]. apply ns_ncl, H.
+Qed.
+Lemma setArg_entries j k v (P : bytes * bytes -> Prop) : Forall P j -> (forall k', P (k', v)) -> Forall P (setArg j k v).
+Proof.
+  intros Hj Hp. induction Hj as [|[k' v'] r H Hr IH]; cbn [setArg]; [constructor; [apply Hp|constructor]|].
+  destruct (beq k k'); constructor; try assumption. apply Hp.
+Qed.
+
+Theorem rjrun_entries ops : Forall rjop_ok ops ->
+  Forall (fun kv => exists c, In c (rj_cookies ops) /\ cookie_ns c /\ snd kv = Cookie_ c) (rjrun ops) /\
+  NoDup (map fst (rjrun ops)) /\ (length (rjrun ops) <= length (rj_cookies ops))%nat.
+Proof.
+  unfold rjrun.
+  assert (G : forall ops pre j, Forall rjop_ok ops ->
+     Forall (fun kv => exists c, In c pre /\ cookie_ns c /\ snd kv = Cookie_ c) j -> NoDup (map fst j) -> (length j <= length pre)%nat ->
+     Forall (fun kv => exists c, In c (pre ++ rj_cookies ops) /\ cookie_ns c /\ snd kv = Cookie_ c) (fold_left rjstep ops j) /\
+     NoDup (map fst (fold_left rjstep ops j)) /\ (length (fold_left rjstep ops j) <= length (pre ++ rj_cookies ops))%nat).
+  { clear. induction ops as [|o ops IH]; intros pre j Ho Hj Hn Hl; cbn [fold_left rj_cookies flat_map].
+    - rewrite app_nil_r. auto.
+    - inversion Ho; subst.
+      assert (W : forall extra (j' : kvs), Forall (fun kv => exists c, In c pre /\ cookie_ns c /\ snd kv = Cookie_ c) j' ->
+                  Forall (fun kv => exists c, In c (pre ++ extra) /\ cookie_ns c /\ snd kv = Cookie_ c) j').
+      { intros extra j'. apply Forall_impl. intros kv (c & A & B & C). exists c. split; [apply in_or_app; now left|auto]. }
+      assert (D : forall k, Forall (fun kv => exists c, In c pre /\ cookie_ns c /\ snd kv = Cookie_ c) (delAllKV j k)).
+      { intros k. clear - Hj. induction Hj as [|[k' v'] r H Hr IH]; cbn [delAllKV]; [constructor|]. destruct (beq k k'); [assumption|now constructor]. }
+      assert (S : forall (j' : kvs) c, cookie_ns c -> Forall (fun kv => exists c0, In c0 pre /\ cookie_ns c0 /\ snd kv = Cookie_ c0) j' -> NoDup (map fst j') -> (length j' <= length pre)%nat ->
+                  let j2 := respSetCookie j' c in
+                  Forall (fun kv => exists c0, In c0 (pre ++ [c]) /\ cookie_ns c0 /\ snd kv = Cookie_ c0) j2 /\ NoDup (map fst j2) /\ (length j2 <= length (pre ++ [c]))%nat).
+      { intros j' c Hc Hj' Hn' Hl' j2. subst j2. rewrite respSetCookie_entry by exact Hc. rewrite setArg_assoc.
+        destruct (assoc_set_keys j' (ck_key c) (Cookie_ c) Hn') as (A & _ & C). split; [|split; [exact A|rewrite app_length; cbn; lia]].
+        rewrite <- setArg_assoc. apply setArg_entries; [now apply W|]. intros k'. exists c. split; [apply in_or_app; right; now left|auto]. }
+      destruct o; cbn [rjstep rjop_ok] in *.
+      + destruct (S j c H1 Hj Hn Hl) as (A & B & C). specialize (IH (pre ++ [c]) _ H2 A B C).
+        now rewrite <- app_assoc in IH.
+      + destruct (delAllKV_keys j k Hn) as (A & _ & C). cbn [app]. apply IH; try assumption; [apply D|lia].
+      + destruct (delAllKV_keys j k Hn) as (A & _ & C).
+        destruct (S (delAllKV j k) (delClientCookie k) (delClientCookie_ns k) (D k) A ltac:(lia)) as (A' & B' & C').
+        specialize (IH (pre ++ [delClientCookie k]) _ H2 A' B' C'). now rewrite <- app_assoc in IH.
+      + cbn [app]. apply IH; try assumption; [constructor|constructor|cbn; lia]. }
+  intros Ho. destruct (G ops [] [] Ho (Forall_nil _) (NoDup_nil _) (Nat.le_refl _)) as (A & B & C). auto.
 Qed.
